@@ -177,12 +177,12 @@ def outcome_rerendered(ab, cfg):
     except Exception as e: return ('internal', type(e).__name__)
 
 
-def outcome(ab, cfg):
+def outcome(ab, cfg, gc=None):
     from emmet import expand
     from emmet.scanner import ScannerException
     from emmet.token_scanner import TokenScannerException
     hostile_environment()
-    try: return ('ok', expand(ab, cfg))
+    try: return ('ok', expand(ab, cfg, gc) if gc is not None else expand(ab, cfg))
     except ScannerException as e: return ('scanner', e.pos)
     except TokenScannerException as e: return ('token', e.pos)
     except RecursionError: return ('internal', 'RecursionError')      # generated abbreviations are shallow: running out of stack is non-termination
